@@ -173,6 +173,35 @@ def v_golomb(sol, n):
     return None
 
 
+def count_golomb(n, sym):
+    """
+    Number of Golomb rulers with n marks (first mark 0) of length <= 1 + 2 + ... + n(n-1)/2 (the upper bound of every distance in the
+    shipped model); sym: counted up to reflection (a ruler and its mirror image are one object; for n = 2 the ruler is its own mirror).
+    """
+    dist_nb = n * (n - 1) // 2
+    limit = dist_nb * (dist_nb + 1) // 2
+    found = set()
+
+    def rec(marks, used):
+        if len(marks) == n:
+            found.add(tuple(marks))
+            return
+        for m in range(marks[-1] + 1, limit + 1):
+            ds = [m - x for x in marks]
+            if any(d in used for d in ds):
+                continue
+            rec(marks + [m], used | set(ds))
+
+    rec([0], frozenset())
+    if not sym:
+        return len(found)
+    classes = set()
+    for r in found:
+        mirror = tuple(sorted(r[-1] - x for x in r))
+        classes.add(min(r, mirror))
+    return len(classes)
+
+
 def v_bibd(sol, v, b, r, k, l):
     mat = [list(sol[i * b : (i + 1) * b]) for i in range(v)]
     if any(x not in (0, 1) for row in mat for x in row):
